@@ -296,6 +296,7 @@ class SimCluster:
         kw["kind"] = kind
         kw["t"] = self.now()
         kw["n"] = len(self.events)
+        kw["ev"] = getattr(self.net.loop, "events", None)     # index of the loop event during which this happened
         self.events.append(kw)
         return kw
 
